@@ -46,11 +46,7 @@ Print Assumptions C05_detector_terminates.
 Theorem C05_validated_is_ranked : forall d g,
   validate d g = true ->
   ranked g (rank_of g) /\ forall k, (rank_of g k < exec_fuel_of g)%nat.
-Proof.
-  intros d g H. unfold validate in H.
-  destruct (validate_dir true d g) eqn:V; try discriminate.
-  split; [apply all_starts_ranked; eapply validate_dir_all_starts; exact V|apply rank_below_fuel].
-Qed.
+Proof. exact validated_is_ranked. Qed.
 Print Assumptions C05_validated_is_ranked.
 
 (* Hence: from ANY start processor (the entry point, or any target of a
@@ -64,13 +60,7 @@ Theorem C05_detector_sound : forall d g,
     snd (exec_impl g gr d' beh fuel k) <> OutOfFuel
     /\ (length (fst (exec_impl g gr d' beh fuel k)) <= Nat.pow (S (maxdeg g)) fuel)%nat
     /\ exec_impl g gr d' beh fuel k = exec_impl g gr d' beh (exec_fuel_of g) k.
-Proof.
-  intros d g H gr d' beh fuel k L.
-  destruct (C05_validated_is_ranked d g H) as [R B]. specialize (B k).
-  split; [eapply ranked_not_stuck; [exact R|lia]|].
-  split; [apply exec_length|].
-  eapply ranked_fuel_irrelevant; [exact R|lia|lia].
-Qed.
+Proof. exact detector_sound. Qed.
 Print Assumptions C05_detector_sound.
 
 (* No false alarm: a direction that is acyclic is never reported as circular. *)
@@ -87,13 +77,7 @@ Theorem C05_flow_safe : forall f fuel,
   forall d start beh,
     snd (exec_flow_impl fuel f d start beh) <> OutOfFuel
     /\ (length (fst (exec_flow_impl fuel f d start beh)) <= dir_bound fuel (gdir f d))%nat.
-Proof.
-  intros f fuel VQ VS LQ LS d start beh. split; [|apply flow_length].
-  apply flow_not_stuck. unfold validate in *.
-  destruct (validate_dir true Req (freq f)) eqn:A; try discriminate.
-  destruct (validate_dir true Res (fres f)) eqn:B; try discriminate.
-  split; eapply validate_dir_ok; eauto.
-Qed.
+Proof. exact flow_safe. Qed.
 Print Assumptions C05_flow_safe.
 
 (* ---- (d) the builder terminates; reference cycles ---------------------------- *)
@@ -117,6 +101,23 @@ Theorem C05_self_reference_rejected : forall cf allstarts fc pre c post,
 Proof. exact self_reference_rejected. Qed.
 Print Assumptions C05_self_reference_rejected.
 
+(* Every reference cycle is rejected: if flow fc reaches itself through flow
+   references written in direction d (`processor -> flow X at start` or `from
+   flow X at end -> processor`, through any number of flows), building fc fails
+   with an error - it neither succeeds nor exhausts the budget. *)
+Theorem C05_reference_cycle_rejected : forall cf allstarts fc d,
+  find_flow cf (fc_name fc) = Some fc ->
+  ref_path cf d (fc_name fc) (fc_name fc) ->
+  build_flow cf true allstarts fc = FBad.
+Proof. exact reference_cycle_rejected. Qed.
+Print Assumptions C05_reference_cycle_rejected.
+
+(* its hypotheses on the three-flow cycle 1 -> 2 -> 3 -> 1 *)
+Example C05_reference_cycle_witness :
+  find_flow wc_config 1 = Some (wc_flow 1 1 2) /\ fc_name (wc_flow 1 1 2) = 1
+  /\ ref_path wc_config Req 1 1.
+Proof. split; [reflexivity|]. split; [reflexivity|exact wc_ref_path]. Qed.
+
 (* ---- (b) the whole transaction ----------------------------------------------- *)
 
 (* Accepted configuration, any flows selected among the loaded ones (which ones
@@ -136,22 +137,7 @@ Theorem C05_transaction_safe : forall cf fs beh s s2,
   /\ forall sc,
        (snd (run_res fuel beh s sc) = None \/ exists k, snd (run_res fuel beh s sc) = Some (NoRespNode k))
        /\ (length (fst (run_res fuel beh s sc)) <= res_bound fuel s)%nat.
-Proof.
-  intros cf fs beh s s2 L S S2 fuel.
-  pose proof (valid_flows_ok fs (load_accept_valid cf fs L)) as OK.
-  assert (SO : sel_ok fuel s) by (eapply sel_from_ok; eauto).
-  assert (SO2 : forall s', s2 = Some s' -> sel_ok fuel s').
-  { intros s' E. eapply sel_from_ok; eauto. }
-  destruct (C04_no_fuel_exhaustion fuel beh s s2 SO SO2) as [NQ NS].
-  assert (OUT : forall r : list event * option outcome,
-            (forall o, snd r = Some o -> failed o = true) -> snd r <> Some OutOfFuel ->
-            snd r = None \/ exists k, snd r = Some (NoRespNode k)).
-  { intros r F N. destruct (snd r) as [o|] eqn:E; [|left; reflexivity].
-    specialize (F o eq_refl). destruct o; try discriminate; [right; eauto|contradiction]. }
-  split; [apply OUT; [apply run_req_failed|exact NQ]|].
-  split; [apply run_req_length|].
-  intros sc. split; [apply OUT; [apply run_res_failed|apply NS]|apply run_res_length].
-Qed.
+Proof. exact transaction_safe. Qed.
 Print Assumptions C05_transaction_safe.
 
 (* ---- the pinned tree: why the two repairs are needed ------------------------- *)
@@ -200,15 +186,9 @@ Proof.
 Qed.
 Print Assumptions C05_pinned_builder_refuted.
 
-(* the repaired loader rejects it, and mutual / longer reference cycles too *)
+(* the repaired loader rejects it, and the three-flow cycle too *)
 Example C05_reference_cycles_rejected :
-  load wb_config = Reject 3
-  /\ load (CF [FC 1 true [PD 1 false 1 [1]] [CN ep_stream_start (ep_p 1 0); CN (ep_p 1 1) (ep_flow_start 2)]
-                  [CN ep_stream_start ep_stream_end];
-               FC 2 true [PD 2 false 1 [1]] [CN ep_stream_start (ep_p 2 0); CN (ep_p 2 1) (ep_flow_start 3)]
-                  [CN ep_stream_start ep_stream_end];
-               FC 3 true [PD 3 false 1 [1]] [CN ep_stream_start (ep_p 3 0); CN (ep_p 3 1) (ep_flow_start 1)]
-                  [CN ep_stream_start ep_stream_end]] false) = Reject 3.
+  load wb_config = Reject 3 /\ load wc_config = Reject 3.
 Proof. vm_compute. split; reflexivity. Qed.
 
 (* ---- non-vacuity -------------------------------------------------------------- *)
